@@ -1,6 +1,7 @@
 SPECIFICATION TraceSpec
 CONSTANTS
  UnitFix = FALSE
+ TypeByName = TRUE
 INVARIANTS NameGrammar LabelGrammar ValueEscaped DescEscaped NoSyntaxError Complete NameRuleOrCF08 NoForgery AsModel
 POSTCONDITION TraceAccepted
 CHECK_DEADLOCK FALSE
